@@ -158,6 +158,48 @@ func replay(c *cfg, walk []json.RawMessage, label string) *core.Trace {
 	return tr
 }
 
+// randomWalks generates subscribe / unsubscribe sessions biased towards overlapping wildcard filters.
+func randomWalks(mode string, n, length int, rng *rand.Rand) [][]json.RawMessage {
+	words := []string{"a", "b", "+"}
+	var out [][]json.RawMessage
+	for i := 0; i < n; i++ {
+		var walk []json.RawMessage
+		type pair struct{ f, s string }
+		held := map[pair][]string{}
+		for len(walk) < length {
+			var f []string
+			if len(held) > 0 && (rng.Intn(3) == 0 || len(held) >= 7) {
+				// unsubscribe something held
+				k := rng.Intn(len(held))
+				for p, ff := range held {
+					if k == 0 {
+						b, _ := json.Marshal(map[string]any{"n": "unsub", "f": ff, "s": p.s})
+						walk = append(walk, b)
+						delete(held, p)
+						break
+					}
+					k--
+				}
+				continue
+			}
+			f = []string{"c1"}
+			d := 1 + rng.Intn(3)
+			for j := 0; j < d; j++ {
+				f = append(f, words[rng.Intn(len(words))])
+			}
+			if mode == "mqtt" && rng.Intn(4) == 0 {
+				f = append(f[:len(f)-1], "#")
+			}
+			sub := fmt.Sprintf("s%d", 1+rng.Intn(4))
+			b, _ := json.Marshal(map[string]any{"n": "sub", "f": f, "s": sub})
+			walk = append(walk, b)
+			held[pair{strings.Join(f, "/"), sub}] = f
+		}
+		out = append(out, walk)
+	}
+	return out
+}
+
 func hasShare(t *message.Trie) bool {
 	sh := hash.OfString("$share")
 	for _, e := range t.VerifEntries() {
@@ -375,6 +417,9 @@ func Run(c *core.Ctx) {
 		core.Logf("trie %s: %d edges exported, %d covered by %d walks", mode, g.Edges, covered, len(walks))
 		c.Add("edges_exported", int64(g.Edges))
 		c.Add("edges_replayed", int64(covered))
+		// beyond the exported graph (|S| <= 2): seeded random sessions with up to 7 subscriptions at a time over filters
+		// of depth <= 3 with '+' at every position (and '#' in mqtt mode), 4 subscribers - R -> V, TLC is the oracle
+		walks = append(walks, randomWalks(mode, map[bool]int{true: 80, false: 1500}[c.Quick()], 30, rng)...)
 		traces := make([]*core.Trace, len(walks))
 		var wg sync.WaitGroup
 		sem := make(chan struct{}, 8)
